@@ -1093,6 +1093,10 @@ def part_volume(ctx, bins):
     # valgrind memcheck on the plain build for a sample (uninitialised reads are invisible to ASan/UBSan)
     vg = [j for i, j in enumerate(jobs) if j[4] != "seed" and i % (150 if q else 300) == 7][: 40 if q else 400]
 
+    # inputs whose only symptom is an uninitialised read (invisible to ASan/UBSan): always under memcheck
+    vg += [(b"enum x A = 1;\n", "x86_64-sysv", "c", {"seed": "object-of-incomplete-enum"}, "seed"),
+           (b"enum e v;\n", "x86_64-sysv", "c", {"seed": "object-of-incomplete-enum-2"}, "seed")]
+
     def one_vg(job):
         src, targ, mode, d, origin = job
         cmd = ["valgrind", "-q", "--error-exitcode=97", "--track-origins=no", bins.plain, "-t", targ] + (["-E"] if mode == "E" else [])
